@@ -485,6 +485,44 @@ def check(run: Run) -> None:
             if got != fns:
                 run.finding("C16.g", f"{tab}:slots", f"{tab} wires {got}, expected {fns}", loc=PUSH)
 
+    with run.obligation("C16.i", "K2", "a start that fails rolls the source back with the SAME shutdown protocol as stop: begin_close -> policy stop (clears accepting and "
+                        "wakes producers blocked in send_blocking) -> wait_for_quiescence -> detach; waiting for quiescence before the policy stop deadlocks with a "
+                        "producer that is already blocked on a full queue"):
+        fa = R.fn(run, PUSH, "push_source_start")
+        lams = [g.lam for g in R.flow(run, fa).cfg.guards.values() if g.name == "rollback" and g.lam is not None]
+        run.sites(len(lams), 1, "push_source_start rollback guard")
+        lfa = C.FuncAST(fa.fd, fa.fi, lams[0].body, [], [])
+        fl = R.flow(run, lfa)
+        chain = [R.call_is(name="begin_close"), R.call_is(callee=r"detail::PushSourcePolicyAccess::stop"),
+                 R.call_is(name="wait_for_quiescence"), R.call_is(name="detach")]
+        names = ["begin_close", "policy stop", "wait_for_quiescence", "detach"]
+        for i in range(len(chain) - 1):
+            R.k2_never_after(run, "C16.i", fl, chain[i + 1], chain[i], f"rollback: {names[i]} after {names[i + 1]}")
+        R.k2_precede(run, "C16.i", fl, chain[1], chain[2], "rollback: policy stop before wait_for_quiescence")
+        R.k2_precede(run, "C16.i", fl, chain[2], chain[3], "rollback: wait_for_quiescence before detach")
+
+    with run.obligation("C16.j", "K11", "within capacity: every policy factory that takes a capacity (`max_pending`) hands it to the policy context it registers - a factory that "
+                        "drops the argument builds an unbounded queue (no try_send refusal, no back-pressure)"):
+        fi_ = run.tree.file(PUSH)
+        cn = R.Canon()
+        n_f = 0
+        for fd_ in fi_.funcs:
+            if fd_.body is None:
+                continue
+            fa_ = R.parse(run, fd_, strict=False)
+            if not any(nm == "max_pending" for ty, nm in fa_.params):
+                continue
+            n_f += 1
+            run.count(1, "C16.j")
+            t_ = R.taint_closure(fa_, ["max_pending"])
+            uses = [c for c in R.calls(fa_) if any(isinstance(x, C.Id) and x.name in t_ for a in c.args for x in a.walk())]
+            stores = [n_ for n_ in fa_.body.walk() if isinstance(n_, (C.Desig,)) and any(isinstance(x, C.Id) and x.name in t_ for x in n_.value.walk())]
+            inits = [n_ for n_ in fa_.body.walk() if isinstance(n_, C.Init) and any(isinstance(x, C.Id) and x.name in t_ for e in n_.elems if isinstance(e, C.Node) for x in e.walk())]
+            if not uses and not stores and not inits:
+                run.finding("C16.j", f"{fd_.name}#{len(fa_.params)}:{fa_.params[0][0].split()[1] if len(fa_.params[0][0].split()) > 1 else fa_.params[0][0]}:capacity-dropped",
+                            f"{fd_.qual}({', '.join(ty for ty, nm in fa_.params)}) never uses its `max_pending` argument: the policy it builds is unbounded", loc=fa_.loc(fa_.body))
+        run.sites(n_f, 4, "functions taking a capacity")
+
 
 def cn_text(node, cn) -> str:
     return " ".join(cn(c) for c in R.calls(node))
@@ -493,6 +531,8 @@ def cn_text(node, cn) -> str:
 ANYARGS = ("anyargs",)
 
 VARIANTS = [
+    {"id": "i-rollback-waits-before-policy-stop", "expect": "C16.i", "edits": [{"file": PUSH, "find": "                if (control) { control->begin_close(); }\n                detail::PushSourcePolicyAccess::stop(context.policy, storage);\n                if (control)\n                {\n                    control->wait_for_quiescence();\n                    control->detach();\n                    control.reset();\n                }\n            });", "replace": "                if (control)\n                {\n                    control->begin_close();\n                    control->wait_for_quiescence();\n                    control->detach();\n                    control.reset();\n                }\n                detail::PushSourcePolicyAccess::stop(context.policy, storage);\n            });"}]},
+    {"id": "j-value-schema-queue-factory-drops-capacity", "expect": "C16.j", "edits": [{"file": PUSH, "find": "        return make_policy(queue_policy_ops(), sender_schema, nullptr, max_pending);", "replace": "        return make_push_source_policy(PushSourcePolicyKind::Queue, sender_schema, nullptr);"}]},
     {"id": "f-stop-wakes-one-producer", "expect": "C16.f", "edits": [{"file": PUSH, "find": "                    consumer_thread = {};\n                }\n                capacity_available.notify_all();", "replace": "                    consumer_thread = {};\n                }\n                capacity_available.notify_one();"}]},
     {"id": "a-unlocked-read", "expect": "C16.a", "edits": [{"file": PUSH, "find": "            [[nodiscard]] std::size_t pending_items() const noexcept\n            {\n                std::lock_guard lock{mutex};\n                return values.size();", "replace": "            [[nodiscard]] std::size_t pending_items() const noexcept\n            {\n                return values.size();"}]},
     {"id": "a-realtime-flag-unlocked", "expect": "C16.a", "edits": [{"file": EXEC, "find": "            auto &state = realtime_storage(memory);\n            std::lock_guard lock{state.mutex};\n            return state.push_update_pending;", "replace": "            auto &state = realtime_storage(memory);\n            return state.push_update_pending;"}]},
